@@ -5,7 +5,7 @@
 //! `wire/protocol.rs` does.
 //!
 //! Case input (the same tokens the Lean driver reads): `<B> <stream hex> <cuts> <onion set> <flag>`
-//!   * `B`     — inbox bound (one of 64, 4096, 2097152 = `MAX_INBOX_SIZE`);
+//!   * `B`     — inbox bound (one of 64, 1024, 4096, 2097152 = `MAX_INBOX_SIZE`);
 //!   * `cuts`  — non-decreasing byte positions at which the stream is split into chunks (`-` = one chunk);
 //!   * `onion set` — raw Tor addresses of the stream accepted by the real `OnionAddrV3::from_raw_bytes`
 //!     (graph of the opaque function, recomputed and checked here);
@@ -198,16 +198,17 @@ fn feed<const B: usize>(chunks: &[&[u8]]) -> Fed {
 fn feed_b(b: usize, chunks: &[&[u8]]) -> Option<Fed> {
     match b {
         64 => Some(feed::<64>(chunks)),
+        1024 => Some(feed::<1024>(chunks)),
         4096 => Some(feed::<4096>(chunks)),
         2097152 => Some(feed::<2097152>(chunks)),
         _ => None,
     }
 }
 
-/// Independent, minimal envelope parser for the oracle "a complete frame is never reported incomplete":
-/// does `buf` start with a complete frame envelope (version, stream id, then either a control message or
-/// a payload whose declared length is satisfied)?
-fn envelope_complete(buf: &[u8]) -> bool {
+/// Independent, minimal envelope parser for the oracle: if `buf` starts with a complete frame envelope
+/// (version, stream id, then either a control message or a payload whose declared length is satisfied),
+/// the length of that frame.
+fn frame_len(buf: &[u8]) -> Option<usize> {
     fn varint(b: &[u8]) -> Option<(u64, usize)> {
         let first = *b.first()?;
         let n = 1usize << (first >> 6);
@@ -221,21 +222,47 @@ fn envelope_complete(buf: &[u8]) -> bool {
         Some((v, n))
     }
     if buf.len() < 4 || buf[..4] != [b'r', b'a', b'd', 1] {
-        return false;
+        return None;
     }
-    let Some((sid, n)) = varint(&buf[4..]) else { return false };
+    let (sid, n) = varint(&buf[4..])?;
     let rest = &buf[4 + n..];
     match (sid >> 1) & 3 {
         0 => match rest.first() {
-            Some(0..=2) => varint(&rest[1..]).is_some(),
-            _ => false,
+            Some(0..=2) => varint(&rest[1..]).map(|(_, m)| 4 + n + 1 + m),
+            _ => None,
         },
         1 | 2 => match varint(rest) {
-            Some((len, m)) => (rest.len() - m) as u64 >= len,
-            None => false,
+            Some((len, m)) if (rest.len() - m) as u64 >= len => Some(4 + n + m + len as usize),
+            _ => None,
         },
-        _ => false,
+        _ => None,
     }
+}
+
+fn envelope_complete(buf: &[u8]) -> bool {
+    frame_len(buf).is_some()
+}
+
+/// The inbox clause, evaluated independently of the deserializer: does every chunk fit the inbox bound
+/// together with the UNDECODED remainder it is appended to (bytes received so far minus the complete frame
+/// envelopes in them)? Frame boundaries come from `frame_len`; after the first byte that does not start a
+/// frame everything counts as undecoded.
+fn fits_inbox(b: usize, stream: &[u8], chunks: &[&[u8]]) -> bool {
+    let mut boundaries = vec![0usize];
+    let mut pos = 0;
+    while let Some(n) = frame_len(&stream[pos..]) {
+        pos += n;
+        boundaries.push(pos);
+    }
+    let mut received = 0usize;
+    for c in chunks {
+        let decoded = *boundaries.iter().filter(|x| **x <= received).last().unwrap_or(&0);
+        if received - decoded + c.len() > b {
+            return false;
+        }
+        received += c.len();
+    }
+    true
 }
 
 fn run_case_inproc(input: &str) -> Outcome {
@@ -264,25 +291,34 @@ fn run_case_inproc(input: &str) -> Outcome {
     }
     let n_frames: usize = fed.groups.iter().map(|g| g.len()).sum();
     let flat: Vec<String> = fed.groups.iter().flatten().map(show_frame).collect();
-    if !p.cuts.is_empty() && fed.end != "full" {
-        // chunking independence: the same stream fed at once
-        if let Some(whole) = feed_b(p.b, &[&p.stream[..]]) {
-            if whole.end != "full" {
-                let wflat: Vec<String> = whole.groups.iter().flatten().map(show_frame).collect();
-                let same_end = whole.end == fed.end && (fed.end != "more" || whole.left == fed.left);
-                if wflat != flat || !same_end {
-                    o = o.violation(
-                        "chunking-dependent",
-                        format!(
-                            "fed at once: {} frames end={} left={}; fed in {} chunks: {} frames end={} left={}",
-                            wflat.len(), whole.end, whole.left, cs.len(), flat.len(), fed.end, fed.left
-                        ),
-                    );
-                }
-            }
+    // The inbox bound may only ever refuse a chunk because of UNDECODED bytes.
+    let fits = fits_inbox(p.b, &p.stream, &cs);
+    if fits && fed.end == "full" {
+        o = o.violation(
+            "inbox-bound-depends-on-chunking",
+            format!(
+                "input() refused a chunk (inbox {} bytes) although the undecoded remainder plus the chunk never exceeds it: \
+                 already-decoded bytes are counted against the bound ({} chunks, {n_frames} frames delivered before)",
+                p.b, cs.len()
+            ),
+        );
+    }
+    // Chunking independence: the outcome must be that of the same stream fed at once into a large inbox.
+    if fits && (!p.cuts.is_empty() || p.b != BIG_B) && p.stream.len() <= BIG_B {
+        let whole = feed::<BIG_B>(&[&p.stream[..]]);
+        let wflat: Vec<String> = whole.groups.iter().flatten().map(show_frame).collect();
+        let same_end = whole.end == fed.end && (fed.end != "more" || whole.left == fed.left);
+        if wflat != flat || !same_end {
+            o = o.violation(
+                "chunking-dependent",
+                format!(
+                    "fed at once: {} frames end={} left={}; fed in {} chunks (inbox {}): {} frames end={} left={}",
+                    wflat.len(), whole.end, whole.left, cs.len(), p.b, flat.len(), fed.end, fed.left
+                ),
+            );
         }
     }
-    if p.valid && p.stream.len() <= p.b {
+    if p.valid && fits {
         if fed.end != "more" || fed.left != 0 || fed.reencoded != p.stream {
             o = o.violation(
                 "valid-stream-not-reproduced",
@@ -315,6 +351,8 @@ fn run_case_inproc(input: &str) -> Outcome {
     if fed.end == "more" && fed.left > 0 {
         o = o.tag("left-incomplete-tail");
     }
+    o = o.tag(if fits { "fits-inbox" } else { "exceeds-inbox" });
+    o = o.tag(format!("inbox-{}", p.b));
     o.tags.sort();
     o.tags.dedup();
     o.nontrivial = n_frames > 0 || fed.end != "more" || fed.left > 0;
@@ -494,6 +532,62 @@ fn case_text(b: usize, stream: &[u8], cuts: &[usize], valid: bool) -> String {
     format!("{b} {} {cuts_s} {} {}", hex(stream), wiregen::onion_token(stream), if valid { "v" } else { "-" })
 }
 
+/// A stream for the inbox-bound clause: 1-8 small frames, one git frame of 0.5-0.9 x `b`, 0-3 small frames.
+/// Returns the stream and the frame lengths.
+fn inbox_stream(rng: &mut Rng, b: usize) -> (Vec<u8>, Vec<usize>) {
+    let small = |rng: &mut Rng| -> Frame<Message> {
+        match rng.below(3) {
+            0 => Frame::control(Link::Outbound, Control::Open { stream: stream_id(rng, 2) }),
+            1 => {
+                let n = rng.below(120) as usize;
+                Frame::git(stream_id(rng, 2), rng.bytes(n))
+            }
+            _ => {
+                let kind = 4 + rng.below(3);
+                Frame::gossip(Link::Inbound, wiregen::message_of_kind(rng, kind, false))
+            }
+        }
+    };
+    let mut frames = vec![];
+    for _ in 0..rng.range(1, 8) {
+        frames.push(small(rng));
+    }
+    let big = rng.range(b as u64 / 2, b as u64 * 9 / 10) as usize;
+    frames.push(Frame::git(stream_id(rng, 2), rng.bytes(big)));
+    for _ in 0..rng.below(4) {
+        frames.push(small(rng));
+    }
+    let encs: Vec<Vec<u8>> = frames.iter().map(|f| f.to_bytes()).collect();
+    let lens = encs.iter().map(|e| e.len()).collect();
+    (encs.concat(), lens)
+}
+
+/// Cut positions such that every chunk fits `b` together with the undecoded remainder — mostly as large as
+/// that allows, so that decoded-prefix + remainder + chunk exceeds `b` whenever the prefix is kept around.
+fn fitting_cuts(rng: &mut Rng, b: usize, lens: &[usize]) -> Vec<usize> {
+    let total: usize = lens.iter().sum();
+    let mut bounds = vec![0usize];
+    for l in lens {
+        bounds.push(bounds.last().unwrap() + l);
+    }
+    let mut cuts = vec![];
+    let mut pos = 0usize;
+    while pos < total {
+        let decoded = *bounds.iter().filter(|x| **x <= pos).last().unwrap();
+        let room = b - (pos - decoded);
+        let n = match rng.below(4) {
+            0 => rng.range(1, room as u64) as usize,
+            1 => room.saturating_sub(rng.below(3) as usize).max(1),
+            _ => room,
+        };
+        pos = (pos + n).min(total);
+        if pos < total {
+            cuts.push(pos);
+        }
+    }
+    cuts
+}
+
 fn gen_case(rng: &mut Rng) -> (String, &'static str) {
     let big = rng.chance(1, 12);
     let n = rng.range(1, 4);
@@ -582,6 +676,14 @@ fn gen_case(rng: &mut Rng) -> (String, &'static str) {
             let cuts = random_cuts(rng, s.len());
             (case_text(BIG_B, &s, &cuts, false), "gen-malformed-header")
         }
+        // inbox bound: small frames, then one frame of 0.5-0.9 x the bound, delivered in chunks that are as large
+        // as the bound allows given the undecoded remainder (the bound must not count decoded bytes)
+        19 if rng.chance(2, 3) => {
+            let b = *rng.pick(&[1024usize, 1024, 4096]);
+            let (stream, lens) = inbox_stream(rng, b);
+            let cuts = fitting_cuts(rng, b, &lens);
+            (case_text(b, &stream, &cuts, true), "gen-inbox-fit")
+        }
         // small inbox
         _ => {
             let b = *rng.pick(&[64usize, 4096]);
@@ -645,6 +747,36 @@ fn main() {
                 }
             }
         }
+        // the inbox clause: a fixed stream (3 small frames = 171 bytes, an 850-byte git frame, 1 small frame: 1035 bytes) with B = 1024,
+        // every split into two chunks, and every split into three with the first cut inside the big frame
+        {
+            let g = StreamId::git(Link::Outbound);
+            let frames: Vec<Frame<Message>> = vec![
+                Frame::control(Link::Outbound, Control::Open { stream: g }),
+                Frame::git(g, vec![7; 150]),
+                Frame::control(Link::Inbound, Control::Eof { stream: g }),
+                Frame::git(g, vec![9; 850]),
+                Frame::control(Link::Outbound, Control::Close { stream: g }),
+            ];
+            let s: Vec<u8> = frames.iter().flat_map(|f| f.to_bytes()).collect();
+            for c in 0..=s.len() {
+                let input = case_text(1024, &s, &[c], true);
+                let o = pool.run(&input);
+                ctx.count("gen-exhaustive-inbox");
+                exhaustive_splits += 1;
+                ctx.record(&input, o);
+            }
+            let step = if ctx.quick() { 37 } else { 5 };
+            for c1 in (50..s.len()).step_by(step) {
+                for c2 in (c1..=s.len()).step_by(step) {
+                    let input = case_text(1024, &s, &[c1, c2], true);
+                    let o = pool.run(&input);
+                    ctx.count("gen-exhaustive-inbox");
+                    exhaustive_splits += 1;
+                    ctx.record(&input, o);
+                }
+            }
+        }
         // every varint width and boundary value as a declared length, with 0..=2 bytes behind it
         for kind in [1u64, 2] {
             for declared in [0u64, 1, 63, 64, 16383, 16384, (1 << 30) - 1, 1 << 30, (1 << 32) + 1, (1 << 62) - 1] {
@@ -680,7 +812,9 @@ fn main() {
          as declared payload length with 0-2 bytes present; (3) random sequences of 1-4 control/git/gossip frames built \
          from the repo's types (stream ids and payload sizes at the varint boundaries, messages of every type), fed whole, \
          byte-by-byte, in fixed steps or at random cuts; truncated; with a complete envelope around a truncated or \
-         over-long message followed by valid frames; byte-mutated; malformed headers; small inboxes. \
+         over-long message followed by valid frames; byte-mutated; malformed headers; small inboxes; (4) inbox-bound shapes: small frames followed by a frame of 0.5-0.9 x the bound \
+         (B = 1024 / 4096), every 2-chunk split and a grid of 3-chunk splits of a fixed one, random chunkings that fill the inbox as far \
+         as the undecoded remainder allows. \
          non-trivial = at least one frame decoded, or an error, or an incomplete tail left; distinct by input text",
         false,
     );
